@@ -25,10 +25,12 @@ LEVEL_TEXT = ("Coq theorems over the reals about the Gallina model coq/Model/Fit
               "interpolate_surface: the two passes compose to S(u_k, v_l) = Q_kl for different sizes / degrees per direction, given non-zero pivots "
               "and in-range spans [G]; least-squares: a solution of the normal equations minimises the summed squared residual [G, pure algebra]; "
               "approximate_curve (and every row / column solve of approximate_surface) keeps the end data points as end control points and its "
-              "interior control points solve the normal equations, hence are least-squares optimal, given non-zero pivots [G]. NOT proved (tied by "
-              "the correspondence and the exact oracle only): existence of the LU factorisation (non-zero pivots) for collocation and N^T N "
-              "matrices (Schoenberg-Whitney / total positivity); the composition of the two passes of approximate_surface (corner interpolation); "
-              "in-range spans for the averaged surface parameters; sqrt (chord lengths are inputs of the model); floating point.")
+              "interior control points solve the normal equations, hence are least-squares optimal, given non-zero pivots [G]. Round 2 "
+              "(Proofs/FitSurfMore.v): interpolate_surface from the chords with the span hypotheses discharged (only non-zero pivots remain), "
+              "approximate_surface keeps the four corner data points as corner control points and interpolates them (composition of the two passes). "
+              "NOT proved (tied by the correspondence and the exact oracle only): existence of the LU factorisation (non-zero pivots) for collocation "
+              "and N^T N matrices (Schoenberg-Whitney / total positivity); least-squares optimality of the composed two-pass surface; sqrt (chord "
+              "lengths are inputs of the model); floating point.")
 LEVEL_NOTE = ("Trusted: Coq 8.16.1 kernel incl. vm_compute; standard-library real-number axioms as printed by Print Assumptions; the hand-written "
               "model's fidelity to geomdl/fitting.py is sampled by the correspondence check (1e-8 tolerance on control points); chord lengths "
               "(sqrt) are inputs of the model")
